@@ -368,13 +368,17 @@ class DefaultOperatorResolver(OperatorResolver):
                     (power_term.factors[0].token if power_term else None) or Token(),
                     "The right-hand argument of `**` must be a positive integer.",
                 )
-            # Products of more than `len(arg)` terms repeat a term, and so add
-            # nothing new: huge exponents need not be enumerated (or overflow).
-            exponent = max(1, min(exponent, len(arg)))
-            return OrderedSet(
-                functools.reduce(lambda x, y: x * y, term)
-                for term in itertools.product(*[arg] * exponent)
-            )
+            # Multiply one operand at a time, dropping repeated terms as we go
+            # (which leaves the result and its order unchanged), and stop once
+            # another factor adds nothing new: the work is then bounded by the
+            # size of the result rather than by `len(arg) ** exponent`.
+            terms = OrderedSet(arg)
+            for _ in range(min(exponent, len(arg)) - 1):
+                expanded = OrderedSet(x * y for x in terms for y in arg)
+                if [t.factors for t in expanded] == [t.factors for t in terms]:
+                    break
+                terms = expanded
+            return terms
 
         def multistage_formula(
             lhs: OrderedSet[Term], rhs: OrderedSet[Term]
